@@ -3401,7 +3401,14 @@ func c12r10(c *Ctx, r *Report) {
 		}
 		n++
 		why := ""
-		der := forwardDerived(f, []ssa.Value{cmdp}, func(*ssa.CallCommon) bool { return true })
+		// what the exec functions RETURN (an error, a *Cmd) is not the command any more
+		der := forwardDerived(f, []ssa.Value{cmdp}, func(cc *ssa.CallCommon) bool {
+			switch calleeName(cc) {
+			case "os/exec.Command", "syscall.Exec", "os/exec.CommandContext":
+				return false
+			}
+			return true
+		})
 		eachInstr(f, func(in ssa.Instruction) {
 			call, ok := in.(*ssa.Call)
 			if !ok {
